@@ -197,3 +197,5 @@ def s3(I):
     after = immutable_view(p)
     I.check('asset_order_and_parameters_unchanged', before[:6] == after[:6] and I.values_eq(before[6], after[6]) is True)
     I.check('assets_aligned_with_denoms', [c.get('denom') for c in p.get('assets').e] == list(p.get('asset_denoms').e))
+
+from . import stable3   # noqa: E402,F401  (three-asset stableswap accounting obligations registered for this property)
